@@ -89,6 +89,18 @@ def b64_cases(rng, quick):
         py = base64.b64encode(d)
         form = "(let ((d %s)) (list (%%t (ob (b64-enc-port d))) (%%t (ob (b64-dec-port %s)))))" % (bvlit(d), bvlit(py))
         cases.append(Case(form, ("base64", "port", _chunk_class(n, 2048), _chunk_class(len(py), 2964)), _judge_b64_port(form, d, py)))
+    # wrapped and irregularly wrapped encodings through the streaming (binary port) decoder and the one-shot decoder:
+    # ignored bytes (line breaks) falling next to the decoder's chunk boundary, inside a 4-character quantum
+    widths = [76, 64, 60, 75, 77, 19, 10, 7, 5, 3, 1]
+    for n in [2000, 2223, 3000, 4096] + [rng.randrange(2230, 9000) for _ in range(3 if quick else 60)]:
+        d = gen_bytes(rng, n)
+        py = base64.b64encode(d)
+        for w in (rng.sample(widths, 5) if quick else widths):
+            sep = rng.choice([b"\n", b"\r\n"])
+            wrapped = sep.join(py[i:i + w] for i in range(0, len(py), w))
+            form = "(list (%%t (ob (b64-dec-port %s))) (%%t (ob (base64-decode-bytevector %s))))" % (bvlit(wrapped), bvlit(wrapped))
+            cases.append(Case(form, ("base64", "wrapped", "width%%4=%d" % (w % 4), "lf" if sep == b"\n" else "crlf",
+                                     _chunk_class(len(wrapped), 2964)), _judge_b64_wrapped(form, d, w)))
     # string and textual-port variants
     for cls in TEXT_CLASSES:
         for _ in range(4 if quick else 40):
@@ -152,6 +164,20 @@ def _judge_b64_port(form, d, py):
             out.append(_v("base64", "encode-port", "error" if is_err(e) else "wrong-output", _chunk_class(len(d), 2048), form, py, e))
         if is_err(dd) or as_bytes(dd) != d:
             out.append(_v("base64", "decode-port", "error" if is_err(dd) else "wrong-output", _chunk_class(len(py), 2964), form, d.hex(), dd))
+        return out
+    return judge
+
+
+def _judge_b64_wrapped(form, d, w):
+    cls = "width%%4=%d" % (w % 4)
+
+    def judge(o):
+        if not (isinstance(o, list) and len(o) == 2):
+            return [_v("base64", "wrapped", "unparsable-observation", cls, form, d.hex(), o)]
+        out = []
+        for api, x in (("decode-port", o[0]), ("decode-bytevector", o[1])):
+            if is_err(x) or as_bytes(x) != d:
+                out.append(_v("base64", api, "error" if is_err(x) else "wrong-output", cls, form, d.hex(), x, input="line-wrapped"))
         return out
     return judge
 
